@@ -409,6 +409,11 @@ impl Core {
         }
 
         let core_settings = context.settings.clone();
+        #[cfg(trusttunnel_verif)]
+        crate::verif::shutdown::sync::gate_probe("tls_demux:tcp:before_select", &|| {
+            let unavailable = context.tls_demux.try_read().is_err();
+            (unavailable, unavailable)
+        });
         let tls_connection_meta = match context
             .tls_demux
             .read()
